@@ -2099,6 +2099,7 @@ def run(ctx):
         "complete constraint evaluation on activity and route level (G1-G3), only confirmed modules put activities into tours (G4), "
         "constraints read cache/dimension slots with the type they are written with and every slot they read has a writer (K1,K2), every "
         "job/route removal is guarded by the locked set (L1). Cache-coherence clauses the constraints rely on are decided under C05.")
+    ctx.explanation += ' Reload / recharge marker jobs sitting in tours are locked (L3: backward slice of what the route-interval enabler writes into the locked set reaches Tour::jobs and the promoted pools).'
     ctx.not_decided = ("that each constraint's arithmetic is right (feasible(P,S) itself),  schedule/termination independence beyond C07/C15 clauses.")
     ctx.assumptions += ["user relations (locks) and initial solutions are consistent with the constraints (documented precondition)",
                         "CHA call graph; closures may-run at construction site",
